@@ -5,7 +5,7 @@ from checks import gen_common
 
 def run(tier, replay=None):
     res = common.Result('C04', tier, 'exploration')
-    total = 1600 if tier == 'quick' else 32000
+    total = 3200 if tier == 'quick' else 32000
     shapes = set()
     cfgs = set()
 
